@@ -24,6 +24,17 @@ Monitors
         `C14/<fmt>/[writer/]form:layout=column-major|non-contiguous`.
   defaults.*                                         omitted vs explicitly passed documented defaults of every optional argument
         of the writers / readers, after earlier calls with other explicit values; key `C14/<fmt>/form:<argument>=omitted`.
+  counts.*                                           class I (structural sweep): every sample count 1 .. 1400 (thorough 5000) is written and read at
+        least once per format -- as 1 x n / n x 1 and as the most nearly square factorisation r x c -- plus shapes whose count is a
+        multiple of 585 (the record width of the Code V writer: 13 x 45, 39 x 15, 45 x 52, ...); thorough: every (rows, cols) up to
+        64 x 64 as well.  Keys `C14/<fmt>/size:count<585|count=k*585|count>585/...` unless the plain round trips showed the failure.
+  scales.*                                           class G (magnitudes / units): one base map with its heights scaled by 1e-9 .. 1e6 (Code V also
+        1e-12, 1e9, 1e12), Zygo wavelengths 1e-3 .. 1e4 um and spacings 1e-9 .. 1e10 mm (random mantissas), judged as every round
+        trip; plus the scale law of the Code V pair: the step declared for s * z must be s x the step declared for z to within a
+        factor 4 either way (`C14/codev/scale:<regime>/step-not-proportional-to-heights`).
+  specials.*                                         class H (special values): constant, all-zero, single-valid-sample (+, -, exactly 0), constant /
+        zero with one invalid sample, one non-zero sample among zeros; dx exactly 0 for half of the cases and through the
+        Interferogram default; the Code V step law for every non-zero special map.
   truncation.zygo / truncation.codev                 fault enumeration: for EVERY prefix length 0..len-1 of a written
         file the reader must raise, or return the untruncated result when no sample lost a byte, or return the map
         with NaN at every sample that lost a byte together with a warning (both precisions).
@@ -57,7 +68,12 @@ RULE = ('round trips: shape classes (1xN, Nx1, square, non-square, odd/even; enu
         'configurations.  omitted vs explicit defaults (class E x B): wavelength / intensity of write_zygo_dat, dx / wavelength of '
         'Interferogram, comment / typ / nnb of write_codev_gridint, multi_intensity_action of the readers, each omitted and passed as '
         'the documented default (positional and keyword) after earlier calls with other explicit values; dx / wavelength as python and '
-        'numpy integers; typ in any letter case.  truncation: every prefix length 0..len-1 of each written file is one case')
+        'numpy integers; typ in any letter case.  truncation: every prefix length 0..len-1 of each written file is one case.  '
+        'STRUCTURAL SWEEP (class I): every sample count 1..1400 (thorough 5000) per format as 1xn / nx1 and as its most nearly square '
+        'factorisation, multiples of 585 (13x45, 39x15, 45x52, 2x585 ...), thorough also every (rows, cols) <= 64x64.  MAGNITUDES (class G): '
+        'one base map x height scales 1e-9..1e6 nm (Code V also 1e-12, 1e9, 1e12) x wavelengths 1e-3..1e4 um x spacings 1e-9..1e10 mm with '
+        'random mantissas x all configurations; Code V step law step(s z) = s step(z) within a factor 4.  SPECIAL VALUES (class H): constant / '
+        'all-zero / single-valid-sample (+, -, 0) / constant-or-zero with one NaN / one non-zero among zeros x dx exactly 0 or calibrated x routes')
 ASSUMPTIONS = ['the map handed to the writer is the reference; one quantisation step is lambda/32768 (Zygo, phase_res 1) and '
                '1000*WVL/|SSZ| nm as declared in the written Code V header, decoded by an independent parser',
                'single-precision allowance: when the data are float32, config.precision is 32 or the wavelength is a '
@@ -67,6 +83,10 @@ ASSUMPTIONS = ['the map handed to the writer is the reference; one quantisation 
                'inside the prefix; sample order in the file is row-major from the top row (MetroPro / Code V convention)',
                'all-NaN maps, maps beyond the int32 range of the Zygo format and Code V FIL (intensity) files are outside the '
                'domain (height maps with >= 1 finite sample); dx == 0 means "no lateral calibration" and must read back as 0',
+               'scale law (Code V only): the text format carries no unit and the writer derives the step (WVL / SSZ) from the data, so the step '
+               'declared for s * z is s times the step declared for z; demanded to a factor 4 in either direction (a writer may round its scale); '
+               'all-zero maps are exempt (any step represents them).  Zygo: the step is lambda / 32768 whatever the data, nothing beyond the ordinary '
+               'oracle is demanded',
                'documented defaults (table DEFAULTS, from the signatures and docstrings of the current tree): wavelength = 0.6328 um '
                '(HeNe), intensity = None, typ = SUR, nnb = False, dx = 0; a call that omits an argument must write a file that decodes '
                '(independent decoder) to the same fields as the call that passes the default explicitly; the Zygo time stamp is not compared']
@@ -75,7 +95,8 @@ REQUIRED = ['roundtrip.zygo', 'roundtrip.codev', 'roundtrip.ifg', 'truncation.zy
             'history.zygo', 'history.ifg', 'history.codev', 'history.re-read',
             'writer.contract.zygo', 'writer.contract.codev', 'reader.contract', 'reader.contract.zygo-eq-decoder',
             'reader.contract.codev-eq-decoder', 'layout.zygo', 'layout.ifg', 'layout.codev', 'defaults.zygo', 'defaults.codev',
-            'defaults.readers', 'defaults.omitted-eq-explicit']
+            'defaults.readers', 'defaults.omitted-eq-explicit', 'counts.codev', 'counts.zygo', 'counts.ifg', 'scales.codev', 'scales.zygo',
+            'scales.ifg', 'scales.codev.step-law', 'specials.codev', 'specials.zygo', 'specials.ifg']
 
 CTX = None
 F32 = 2.0 ** -23
@@ -350,6 +371,18 @@ def fired(ctx, prefix):
             if '/history/' not in k and '/writer/' not in k and '/reader/' not in k:
                 return k
     return None
+
+
+def part_key(ctx, fmt, part, what):
+    """`C14/<fmt>/<what>` for the plain round trips (part == ''); for a case of a structural / magnitude / special-value sweep
+    `C14/<fmt>/<part>/<what>` unless a plain key for the same symptom already fired in this process (the defect is then not specific to
+    the sweep and keeps its plain key)."""
+    if callable(part):
+        part = part(what)
+    if not part:
+        return f'C14/{fmt}/{what}'
+    k0 = fired(ctx, f'C14/{fmt}/{what.split("/")[0]}')
+    return k0 if k0 is not None else f'C14/{fmt}/{part}/{what}'
 
 
 # ---------------------------------------------------------------------------------------------- contracts
@@ -628,6 +661,9 @@ def zygo_trip(tmp, tag, z, dx, wl, route, prec):
         return classify(g, z, tolerance(z, float(wl) * 1e3 / 32768, lowprec(z, wl)))[0]
 
 
+_SCALAR_FAIL = {'dx': False, 'wl': False}
+
+
 def judge_zygo(ctx, tmp, path, desc, z, dx, wl, got, dx2, wl2, route, mon, keyf, orig=None):
     """Compare what was read with what was written.  keyf(fmt, what) builds the violation key.  Returns the class."""
     from prysm import io as pio
@@ -663,18 +699,22 @@ def judge_zygo(ctx, tmp, path, desc, z, dx, wl, got, dx2, wl2, route, mon, keyf,
         suffix = attribute_cfg(cfg_parts(z, wl, orig=orig), reproduces)
         ctx.violation(layout_key(keyf(key_fmt, cls + suffix)), f'Zygo .dat write->read ({route}) does not return the map that was written: {cls}',
                       desc, got_shape=list(np.shape(got)), max_err_nm=_maxerr(got, z), step_nm=step, **detail)
-    ok = abs(float(dx2) - float(dx)) <= scalar_tol(dx, low) and abs(float(wl2) - float(wl)) <= scalar_tol(wl, low)
+    ok_dx, ok_wl = abs(float(dx2) - float(dx)) <= scalar_tol(dx, low), abs(float(wl2) - float(wl)) <= scalar_tol(wl, low)
+    _SCALAR_FAIL.update(dx=not ok_dx, wl=not ok_wl)       # read by key builders that name the regime of the scalar that failed
+    ok = ok_dx and ok_wl
     ctx.require(mon + '.dx-wavelength', ok, keyf(fmt, 'dx-or-wavelength'), 'dx / wavelength not returned to float32 resolution',
                 desc, dx=[float(dx), float(dx2)], wavelength=[float(wl), float(wl2)])
     return cls if ok else cls + '+dx-or-wavelength'
 
 
-def rt_zygo(ctx, tmp, desc, z, dx, wl, form, route, resave=False):
+def rt_zygo(ctx, tmp, desc, z, dx, wl, form, route, resave=False, part=''):
+    """`part`: class label of the structural / magnitude sweep the case belongs to (`size:...` / `scale:...` / `special:...`); it is
+    put into the key only when the plain round trips of this process did not show the same failure (then it is not specific)."""
     path = os.path.join(tmp, f'z{ctx.shard}.dat')
     fmt = 'zygo' if route == 'io' else 'ifg'
     mon = 'roundtrip.zygo' if route == 'io' else 'roundtrip.ifg'
-    plain = lambda f, w: f'C14/{f}/{w}'     # noqa: E731
-    with ctx.guard(f'C14/{fmt}/roundtrip', desc):
+    plain = lambda f, w: part_key(ctx, f, part, w)     # noqa: E731
+    with ctx.guard(part_key(ctx, fmt, part, 'roundtrip'), desc):
         zin = z.copy(order='K') if z.flags.c_contiguous or z.flags.f_contiguous else z
         keep = np.array(z, copy=True)
         write_zygo(path, zin, dx, wl, form, route)
@@ -768,11 +808,11 @@ def write_codev(path, zin, form):
         pio.write_codev_gridint(zin, pathlib.Path(path) if form == 'pathlib' else path, **kw)
 
 
-def rt_codev(ctx, tmp, desc, z, form, resave=False):
+def rt_codev(ctx, tmp, desc, z, form, resave=False, part=''):
     from prysm import io as pio
     path = os.path.join(tmp, f'c{ctx.shard}.int')
-    plain = lambda w: f'C14/codev/{w}'     # noqa: E731
-    with ctx.guard('C14/codev/roundtrip', desc):
+    plain = lambda w: part_key(ctx, 'codev', part, w)     # noqa: E731
+    with ctx.guard(part_key(ctx, 'codev', part, 'roundtrip'), desc):
         zin = z.copy(order='K') if z.flags.c_contiguous or z.flags.f_contiguous else z
         keep = np.array(z, copy=True)
         write_codev(path, zin, form)
@@ -954,6 +994,258 @@ def layouts(ctx, tmp):
                     else:
                         rt_zygo(ctx, tmp, desc, z, dx, wl, form, 'io' if route == 'zygo' else 'ifg', resave=False)
     ctx.note('layouts', f'{len(shapes)} shapes x {len(ALL_LAYOUTS)} memory layouts x 3 writers (argument forms rotating), asymmetric content')
+
+
+# ---------------------------------------------------------------------------------------------- structural sweep (class I)
+RECORD = 585          # values per record of a Code V grid INT file (4096 characters / 7): counts around its multiples are boundaries
+COUNT_SHAPES_EXTRA = [(13, 45), (45, 13), (39, 15), (15, 39), (45, 52), (52, 45), (2, 585), (585, 2), (3, 390), (65, 27), (45, 65),
+                      (24, 24), (25, 117), (584, 1), (1, 586), (2, 293), (293, 2), (7, 167), (1, 1171), (1169, 1)]
+
+
+def _factor(n):
+    """(r, c) with r * c == n and r the largest divisor <= sqrt(n)."""
+    r = int(np.sqrt(n))
+    while n % r:
+        r -= 1
+    return r, n // r
+
+
+def size_class(n):
+    return 'count=k*585' if n % RECORD == 0 else 'count<585' if n < RECORD else 'count>585'
+
+
+def counts(ctx, tmp):
+    """Class I.  Writers that pack samples into records (Code V: <= 585 values per line) or blocks depend on the *number of
+    samples*, so every sample count 1 .. N is realised at least once per format instead of being sampled (N = 1400 quick, 5000
+    thorough): as 1 x n or n x 1 and, when n is composite, as its most nearly square factorisation r x c (either orientation),
+    plus shapes whose count is a multiple of 585 (13 x 45, 39 x 15, 45 x 52, ...).  thorough: every (rows, cols) up to 64 x 64 as
+    well.  Content: mixed signs with an asymmetric ramp, NaN patterns rotating, data dtype / precision rotating; judged as every
+    round trip.  A failure the plain round trips did not show is keyed `C14/<fmt>/size:<count class>/...`."""
+    N = ctx.pick(1400, 5000)
+    todo = []
+    for n in range(1, N + 1):
+        line = (1, n) if n % 2 else (n, 1)
+        r, c = _factor(n)
+        shapes = [line]
+        if r > 1:
+            shapes.append((r, c) if n % 4 < 2 else (c, r))
+        if not ctx.quick:
+            shapes.append(line[::-1])
+            if r > 1:
+                shapes.append((c, r) if n % 4 < 2 else (r, c))
+        for sh in dict.fromkeys(shapes):
+            todo.append(sh)
+    todo += COUNT_SHAPES_EXTRA
+    if not ctx.quick:
+        todo += [(a, b) for a in range(1, 65) for b in range(1, 65)]
+    k = -1
+    for sh in todo:
+        n = sh[0] * sh[1]
+        for ri, route in enumerate(('codev', 'zygo', 'ifg')):
+            k += 1
+            if not ctx.mine(k // 3):       # the three routes of one shape on the same shard
+                continue
+            if route == 'ifg' and ctx.quick and n % 5 and n % RECORD:
+                continue                    # the Interferogram pair shares the io writer: every 5th count in the quick tier
+            rng = np.random.default_rng([ctx.seed, 1418, k])
+            ci = (k // 3) % 8
+            dt, prec = CFGS[ci - 4] if ci >= 4 else CFGS[0]          # half of the cases in the default configuration
+            wl = float(rng.uniform(0.4, 2.0))
+            dx = float(10 ** rng.uniform(-3, 1))
+            H, W = sh
+            zm = (np.arange(H)[:, None] * 3.0 - np.arange(W)[None, :] * 0.7) + rng.standard_normal(sh) * 40 + 1.5
+            ncls = put_nans(NAN_CLASSES[(k // 3) % 4], zm, rng) if n > 1 else 'none'
+            z = as_dtype(zm, dt)
+            form = (CFORMS if route == 'codev' else ZFORMS)[(k // 5) % (len(CFORMS) if route == 'codev' else len(ZFORMS))]
+            scls = size_class(n)
+            desc = {'wl': 'count-sweep', 'route': route, 'shape': sh, 'count': n, 'nan': ncls, 'dtype': dt, 'precision': prec, 'form': form, 'k': k,
+                    'class': f'count:{route}:{scls}:{shape_class(sh)}'}
+            if route != 'codev':
+                desc['dx'], desc['wavelength'] = dx, wl
+            ctx.case(desc, nontrivial=n >= 2)
+            ctx.observe('counts.' + route)
+            with precision(prec):
+                if route == 'codev':
+                    rt_codev(ctx, tmp, desc, z, form, part='size:' + scls)
+                else:
+                    rt_zygo(ctx, tmp, desc, z, dx, wl, form, 'io' if route == 'zygo' else 'ifg', part='size:' + scls)
+    ctx.note('count_sweep', f'every sample count 1..{N} per format (1xn / nx1 and the most nearly square factorisation), multiples of 585'
+             + ('' if ctx.quick else ', every (rows, cols) up to 64 x 64'))
+
+
+# ---------------------------------------------------------------------------------------------- magnitudes and units (class G)
+HEIGHT_SCALES = [1e-9, 1e-7, 1e-5, 1e-3, 1e-1, 1.0, 1e2, 1e4, 1e6]       # nm per unit of the base map (base: |z| of order 1 .. 30)
+CODEV_EXTRA_SCALES = [1e-12, 1e9, 1e12]                                     # the text format has no range limit: the writer picks SSZ
+WAVELENGTHS = [1e-3, 0.05, 0.6328, 10.6, 1e3]                               # um
+SPACINGS = [1e-9, 1e-6, 1e-3, 1.0, 1e3, 1e6, 1e9]                           # mm
+
+
+def scale_regime(s):
+    return 'tiny' if s < 1e-2 else 'huge' if s > 1e2 else 'unit'
+
+
+def codev_step_law(ctx, tmp, desc, z, zs, s, part):
+    """Class G scale law of the Code V pair.  The 16-bit text format carries no unit: the writer chooses the step (WVL / SSZ) from
+    the data, so the step declared for `zs` = s * z must be s times the step declared for z -- required only to a factor 4 in either
+    direction (a writer is free to round its scale).  A writer that takes a small map for an empty one, clamps a large one, or
+    gives up on a flat one declares a step that does not follow the data and loses the content although every sample is still
+    "within one declared step"."""
+    from prysm import io as pio
+    with ctx.guard(f'C14/codev/{part}/step-law', desc), warnings.catch_warnings():
+        warnings.simplefilter('ignore')
+        pb, ps = os.path.join(tmp, f'sb{ctx.shard}.int'), os.path.join(tmp, f'ss{ctx.shard}.int')
+        pio.write_codev_gridint(z, pb)
+        pio.write_codev_gridint(zs, ps)
+        hb, hs_ = (ref.codev_header(ref.codev_split(open(f).read())[1]) for f in (pb, ps))
+        st_b, st_s = 1000.0 * hb['wvl'] / abs(hb['ssz']), 1000.0 * hs_['wvl'] / abs(hs_['ssz'])
+        ok = np.isfinite(st_s) and np.isfinite(st_b) and st_s <= 4.0 * s * st_b * (1 + 1e-6) and s * st_b <= 4.0 * st_s * (1 + 1e-6)
+        ctx.require('scales.codev.step-law', ok, f'C14/codev/{part}/step-not-proportional-to-heights',
+                    'Code V grid INT: the quantisation step declared for s * z is not s x the step declared for z to within a factor 4 '
+                    '(the 16-bit range does not follow the magnitude of the map: its content is lost or clipped)', desc,
+                    step_nm=st_b, step_scaled_nm=st_s, s=s)
+
+
+def scales(ctx, tmp):
+    """Class G.  The same base map (mixed signs, |z| of order 1 .. 30, asymmetric NaN blob) with its heights scaled by
+    1e-9 .. 1e6 (Code V also 1e-12, 1e9, 1e12), the Zygo routes with wavelengths 1e-3 .. 1e3 um and spacings 1e-9 .. 1e9 mm,
+    all configurations.  Every file is judged as every round trip (one step of the format as declared in the file, dx and
+    wavelength to float32 resolution).  In addition the scale law of the Code V pair: the 16-bit format has no unit, so the
+    round-trip error of s * z must be s times that of z -- the step declared for s * z may not exceed 4 x s x (step declared
+    for z); a writer that treats a small map as empty, or clamps a large one, breaks exactly this.  Zygo maps beyond the int32
+    range of the format are outside the domain (excluded and counted)."""
+    from prysm import io as pio
+    reps = ctx.pick(2, 200)
+    k = -1
+    for rep in range(reps):
+        for si, hs in enumerate(HEIGHT_SCALES + CODEV_EXTRA_SCALES):
+            for ri, route in enumerate(('codev', 'zygo', 'ifg')):
+                for wi in range(len(WAVELENGTHS) if route != 'codev' else 1):
+                    k += 1
+                    if not ctx.mine(k):
+                        continue
+                    if route != 'codev' and hs in CODEV_EXTRA_SCALES:
+                        continue
+                    rng = np.random.default_rng([ctx.seed, 1419, k])
+                    shape = [(4, 6), (5, 3), (1, 9), (8, 8), (7, 1), (3, 40)][(rep + si) % 6] if rep < 2 else (int(rng.integers(1, 24)), int(rng.integers(2, 24)))
+                    dt, prec = CFGS[(rep + si + ri + wi) % 4] if (k % 3) else CFGS[0]
+                    base = rng.standard_normal(shape) * 8 + np.arange(shape[1])[None, :] * 0.9
+                    base.flat[0], base.flat[-1] = 25.0, -30.0
+                    ncls = put_nans(NAN_CLASSES[(k // 2) % 4], base, rng)
+                    zm = base * hs
+                    reg = scale_regime(hs)
+                    desc = {'wl': 'scales', 'route': route, 'shape': shape, 'height_scale_nm': hs, 'nan': ncls, 'dtype': dt, 'precision': prec, 'k': k,
+                            'class': f'scale:{route}:{reg}:{dt}/p{prec}'}
+                    if route == 'codev':
+                        z = as_dtype(zm, dt)
+                        ctx.case(desc)
+                        ctx.observe('scales.codev')
+                        with precision(prec):
+                            rt_codev(ctx, tmp, desc, z, CFORMS[k % len(CFORMS)], part=f'scale:{reg}')
+                            codev_step_law(ctx, tmp, desc, as_dtype(base, dt), z, hs, f'scale:{reg}')
+                        continue
+                    # decades from the tables, mantissas random (a spacing of exactly 1e-9 would survive a rounding to 9 decimals)
+                    wl = WAVELENGTHS[wi] * (float(rng.uniform(1, 9.99)) if WAVELENGTHS[wi] not in (0.6328, 10.6) else 1.0)
+                    dx = SPACINGS[(k // 5 + si + wi) % len(SPACINGS)] * float(rng.uniform(1, 9.99))
+                    step = wl * 1e3 / 32768
+                    if np.nanmax(np.abs(zm)) / step > 0.9 * 2 ** 31:
+                        ctx.skip('scales: Zygo map beyond the int32 range of the format (outside the domain)')
+                        continue
+                    z = as_dtype(zm, dt)
+                    sk = SCALARS[k % 3]
+                    desc.update(dx=dx, wavelength=wl, scalars=sk, **{'class': f'scale:{route}:heights-{reg}:{dt}/p{prec}'})
+                    ctx.case(desc)
+                    ctx.observe('scales.' + route)
+                    with precision(prec):
+                        def sreg(dx=dx, wl=wl):
+                            bad = ([f'dx-{scale_regime(dx)}'] if _SCALAR_FAIL['dx'] else []) + ([f'wavelength-{scale_regime(wl)}'] if _SCALAR_FAIL['wl'] else [])
+                            return 'scale:' + '+'.join(bad)
+                        rt_zygo(ctx, tmp, desc, z, as_scalar(dx, sk), as_scalar(wl, SCALARS[(k // 3) % 3]), ZFORMS[k % len(ZFORMS)],
+                                'io' if route == 'zygo' else 'ifg',
+                                part=lambda w, sreg=sreg, reg=reg: sreg() if w.startswith('dx-or-wavelength') else f'scale:heights-{reg}')
+    ctx.note('scales', {'height_scales_nm': HEIGHT_SCALES, 'codev_extra': CODEV_EXTRA_SCALES, 'wavelengths_um': WAVELENGTHS, 'dx_mm': SPACINGS,
+                        'repetitions': reps})
+
+
+# ---------------------------------------------------------------------------------------------- special values (class H)
+SPECIAL_MAPS = ['constant+', 'constant-', 'all-zero', 'single-valid+', 'single-valid-', 'single-valid-zero', 'constant-with-nan', 'zero-with-nan',
+                'two-valid-equal', 'single-nonzero-among-zeros']
+# key label of a special map: what the valid samples look like (one defect -> one key)
+SPECIAL_GROUP = {'constant+': 'flat-map', 'constant-': 'flat-map', 'single-valid+': 'flat-map', 'single-valid-': 'flat-map', 'constant-with-nan': 'flat-map',
+                 'two-valid-equal': 'flat-map', 'all-zero': 'zero-map', 'single-valid-zero': 'zero-map', 'zero-with-nan': 'zero-map',
+                 'single-nonzero-among-zeros': 'one-nonzero-sample'}
+SPECIAL_SHAPES = [(1, 2), (2, 1), (2, 2), (3, 4), (5, 3), (1, 7), (6, 1), (8, 8), (2, 9), (17, 5)]
+
+
+def special_map(kind, shape, rng):
+    n = int(np.prod(shape))
+    v = float(10 ** rng.uniform(-2, 3.5))
+    z = np.full(shape, np.nan)
+    pos = int(rng.integers(n))
+    if kind in ('constant+', 'constant-'):
+        z[...] = v if kind.endswith('+') else -v
+    elif kind == 'all-zero':
+        z[...] = 0.0
+    elif kind.startswith('single-valid'):
+        z.flat[pos] = {'single-valid+': v, 'single-valid-': -v, 'single-valid-zero': 0.0}[kind]
+    elif kind in ('constant-with-nan', 'zero-with-nan'):
+        z[...] = v if kind.startswith('constant') else 0.0
+        z.flat[pos] = np.nan
+    elif kind == 'two-valid-equal':
+        z.flat[pos] = -v
+        z.flat[(pos + 1 + int(rng.integers(max(n - 1, 1)))) % n] = -v
+    else:
+        z[...] = 0.0
+        z.flat[pos] = v * (1 if rng.random() < 0.5 else -1)
+    return z
+
+
+def specials(ctx, tmp):
+    """Class H.  Maps at the values where a shortcut is tempting -- constant, all-zero, one single valid sample (positive,
+    negative, exactly zero) in a field of NaN, constant or zero with one invalid sample, one non-zero sample among zeros -- written
+    with dx exactly 0 and with a calibrated dx, through every route and configuration.  Judged as every round trip."""
+    k = -1
+    nrand = ctx.pick(0, 1500)
+    rs = np.random.default_rng([ctx.seed, 14200])
+    shapes = SPECIAL_SHAPES[:ctx.pick(7, len(SPECIAL_SHAPES))] + [(int(rs.integers(1, 30)), int(rs.integers(1, 30))) for _ in range(nrand)]
+    for si, shape in enumerate(shapes):
+        for mi, kind in enumerate(SPECIAL_MAPS):
+            if int(np.prod(shape)) < 2 and kind in ('two-valid-equal', 'constant-with-nan', 'zero-with-nan'):
+                continue
+            for ri, route in enumerate(('codev', 'zygo', 'ifg', 'ifg-default-dx')):
+                k += 1
+                if not ctx.mine(k):
+                    continue
+                rng = np.random.default_rng([ctx.seed, 1420, k])
+                dt, prec = CFGS[(si + mi + ri) % 4] if (k % 2) else CFGS[0]
+                zm = special_map(kind, shape, rng)
+                z = as_dtype(zm, dt)
+                dx = 0.0 if (route == 'ifg-default-dx' or (si + mi) % 2 == 0) else float(10 ** rng.uniform(-3, 1))
+                wl = float(rng.uniform(0.4, 2.0))
+                rname = 'ifg' if route.startswith('ifg') else route
+                desc = {'wl': 'special', 'route': route, 'shape': shape, 'map': kind, 'dtype': dt, 'precision': prec, 'k': k,
+                        'class': f'special:{rname}:{kind}:{"dx0" if dx == 0 else "dx"}:{dt}/p{prec}'}
+                if route != 'codev':
+                    desc['dx'], desc['wavelength'] = dx, wl
+                ctx.case(desc)
+                ctx.observe('specials.' + rname)
+                part = f'special:{SPECIAL_GROUP[kind]}'
+                with precision(prec):
+                    if route == 'codev':
+                        rt_codev(ctx, tmp, desc, z, CFORMS[k % len(CFORMS)], resave=(k % 3 == 0), part=part)
+                        if np.nanmax(np.abs(zm)) > 0:
+                            s_ = [1e-3, 1e3, 1e-6, 7.0][k % 4]
+                            codev_step_law(ctx, tmp, desc, z, as_dtype(zm * s_, dt), s_, part)
+                    elif route == 'ifg-default-dx':
+                        path = os.path.join(tmp, f'z{ctx.shard}.dat')
+                        with ctx.guard(part_key(ctx, 'ifg', part, 'roundtrip'), desc):
+                            keep = np.array(z, copy=True)
+                            write_zygo(path, z, None, wl, 'path', route)
+                            got, dx2, wl2, obj = read_zygo(path, 'ifg')
+                            judge_zygo(ctx, tmp, path, desc, keep, 0.0, wl, got, dx2, wl2, 'ifg', 'roundtrip.ifg',
+                                       lambda f, w: part_key(ctx, f, part, w))
+                    else:
+                        rt_zygo(ctx, tmp, desc, z, dx, wl, ZFORMS[k % len(ZFORMS)], 'io' if route == 'zygo' else 'ifg', resave=(k % 3 == 0), part=part)
+    ctx.note('specials', {'maps': SPECIAL_MAPS, 'shapes': len(shapes), 'dx': 'exactly 0 for half of the cases and for the Interferogram default'})
 
 
 # ---------------------------------------------------------------------------------------------- omitted vs explicit defaults
@@ -1469,6 +1761,9 @@ def run(ctx):
         with tempfile.TemporaryDirectory(prefix='vp-c14-') as tmp:
             roundtrips(ctx, tmp)
             layouts(ctx, tmp)
+            counts(ctx, tmp)             # class I: every sample count
+            scales(ctx, tmp)             # class G: magnitudes of heights / dx / wavelength
+            specials(ctx, tmp)           # class H: constant / zero / single-valid-sample maps, dx exactly 0
             truncation(ctx, tmp)
             histories(ctx, tmp)          # after the round trips: a failure they already showed is not a history effect
             foreign_traffic(ctx, tmp)    # class F: other consumers of the shared header table / configuration, then ...
